@@ -54,7 +54,8 @@ def apply_contract(item, fn, text):
     m = re.search(r'\bfn\s+%s\s*(<[^{(]*>)?\s*\(' % re.escape(fn), item)
     if not m:
         raise extract.AnchorLost('function %s not found for its contract' % fn)
-    # find the opening brace of the body: first '{' at paren depth 0 after the parameter list
+    # find the opening brace of the body (or the ';' of a bodiless declaration): first '{' / ';'
+    # at paren depth 0 after the parameter list
     i = m.end() - 1
     depth = 0
     while i < len(item):
@@ -63,7 +64,7 @@ def apply_contract(item, fn, text):
             depth += 1
         elif c in ')]':
             depth -= 1
-        elif c == '{' and depth == 0:
+        elif c in '{;' and depth == 0:
             break
         i += 1
     sig = item[m.start():i]
@@ -90,6 +91,30 @@ def apply_contract(item, fn, text):
     else:
         newsig = sig.rstrip() + '\n%s\n' % text.rstrip()
     return item[:m.start()] + newsig + item[i:]
+
+
+def drop_fn_body(item, fn, drops):
+    """Replace the body of `fn <fn>` inside the item by `;` (the body is verified in another unit)."""
+    m = re.search(r'\bfn\s+%s\s*(<[^{(]*>)?\s*\(' % re.escape(fn), item)
+    if not m:
+        raise extract.AnchorLost('function %s not found (drop-body)' % fn)
+    i = m.end() - 1
+    depth = 0
+    while i < len(item):
+        c = item[i]
+        if c in '([':
+            depth += 1
+        elif c in ')]':
+            depth -= 1
+        elif c in '{;' and depth == 0:
+            break
+        i += 1
+    if item[i] == ';':
+        raise extract.AnchorLost('function %s has no body any more (drop-body)' % fn)
+    j = _match_fwd(item, i)
+    kk = 'body of default method `%s` replaced by `;` in this unit (verified separately)' % fn
+    drops[kk] = drops.get(kk, 0) + 1
+    return item[:i].rstrip() + ';' + item[j + 1:]
 
 
 def desugar_ref_patterns(item, drops):
@@ -180,6 +205,13 @@ def desugar_map_err_try(item, drops):
         elif re.match(r'^[A-Za-z_]\w*(::\w+)+$', arg):
             pat = 'Err(e__)'
             body = '%s(e__)' % arg
+        elif arg == 'drop':
+            # `R.map_err(drop)?` in a function whose error type is (): the error value is discarded
+            new = 'match %s { Ok(v__) => v__, Err(_) => return Err(()) }' % recv
+            item = item[:i] + new + item[close + 2:]
+            k2 = 'unfolded `R.map_err(drop)?` into `match R { Ok(v) => v, Err(_) => return Err(()) }`'
+            drops[k2] = drops.get(k2, 0) + 1
+            continue
         else:
             raise extract.AnchorLost('map_err argument outside the supported desugaring: %s' % arg[:60])
         new = 'match %s { Ok(v__) => v__, %s => return Err(From::from(%s)) }' % (recv, pat, body)
@@ -195,6 +227,12 @@ def instantiate(unit, drops, extracted):
         contracts[mm.group(1)] = mm.group(2)
         return ''
     tpl = re.sub(r'/\*@contract (\w+)\n(.*?)@\*/\n?', grab, tpl, flags=re.S)
+    injects = {}
+
+    def grab2(mm):
+        injects[mm.group(1)] = mm.group(2)
+        return ''
+    tpl = re.sub(r'/\*@inject (\w+)\n(.*?)@\*/\n?', grab2, tpl, flags=re.S)
     out = []
     for line in tpl.split('\n'):
         s = line.strip()
@@ -219,6 +257,10 @@ def instantiate(unit, drops, extracted):
             cons = []
             noderive = False
             desugar = False
+            addder = None
+            inject = None
+            intbytes = False
+            dropbody = []
             for p in parts[2:]:
                 if p.startswith('nth='):
                     nth = int(p[4:])
@@ -232,12 +274,36 @@ def instantiate(unit, drops, extracted):
                     noderive = True
                 elif p == 'desugar-refpat':
                     desugar = True
+                elif p.startswith('add-derive='):
+                    addder = p[len('add-derive='):]
+                elif p == 'int-bytes':
+                    intbytes = True
+                elif p.startswith('inject='):
+                    inject = p[len('inject='):]
+                elif p.startswith('drop-body='):
+                    dropbody = p[len('drop-body='):].split(',')
             item = extract.extract(resolve(path), rx, drops, nth=nth, raw=raw)
             if noderive:
                 item, k = re.subn(r'(?m)^\s*#\[derive\([^)]*\)\]\s*\n', '', item)
                 if k:
                     drops['#[derive(..)] lines (payload types are opaque here)'] = \
                         drops.get('#[derive(..)] lines (payload types are opaque here)', 0) + k
+            if intbytes:
+                item, k = re.subn(r'\.to_(be|le)_bytes\(\)', r'.to_\1_bytes__()', item)
+                if k:
+                    kk = 'renamed `.to_be_bytes()` / `.to_le_bytes()` calls to the trusted wrappers `.to_be_bytes__()` / `.to_le_bytes__()`'
+                    drops[kk] = drops.get(kk, 0) + k
+            for fn in dropbody:
+                item = drop_fn_body(item, fn, drops)
+            if inject:
+                k = item.index('{')
+                item = item[:k + 1] + '\n' + injects[inject] + item[k + 1:]
+                kk = 'ghost/spec items of the contract inserted at the top of the extracted trait body'
+                drops[kk] = drops.get(kk, 0) + 1
+            if addder:
+                item = '#[derive(%s)]\n' % addder + item
+                kk = 'added #[derive(%s)] to an extracted enum (needed for `as u8` in spec code)' % addder
+                drops[kk] = drops.get(kk, 0) + 1
             if desugar:
                 item = desugar_ref_patterns(item, drops)
                 item = desugar_map_err_try(item, drops)
